@@ -32,6 +32,7 @@ C12 == 1..2
 C1  == {1}
 CutNone  == {0}
 CutBoth  == {0, 1}
+CutAll   == {0, 1, -1}
 NoBugs   == {}
 B_preload_err == {"preload_err"}
 B_scn_err == {"scn_err"}
@@ -50,13 +51,13 @@ KindNo(k) == CHOOSE i \in 1..10 : <<"uri", "uris", "raw", "uripost", "jsonline",
 WNo(w)    == CHOOSE i \in 1..11 : <<<<1>>, <<1, 1>>, <<1, 1, 1>>, <<3>>, <<2, 2>>, <<4, 2>>, <<1, 2>>, <<6, 3, 3>>,
                                     <<1, 1, 1, 1>>, Ones(40), <<60, 40>>>>[i] = w
 IdOf(cc)   == (((((KindNo(cc.kind) * 2 + (IF cc.preload THEN 1 ELSE 0)) * 128 + cc.limit) * 8 + cc.passes) * 16
-                 + WNo(cc.w)) * 4 + cc.nc) * 2 + cc.cut
+                 + WNo(cc.w)) * 4 + cc.nc) * 3 + cc.cut + 1
 CaseBody(cc, id) ==
               [kind |-> cc.kind, preload |-> cc.preload, limit |-> cc.limit, passes |-> cc.passes, w |-> cc.w,
                nc |-> cc.nc, cut |-> cc.cut, id |-> id,
                entries |-> Entries(cc),
                bounded |-> Bounded(cc), expected |-> Expected(cc), cap |-> Cap(cc), stop |-> Stop(cc),
-               hist |-> Hist(cc, IF cc.cut > 0 THEN Stop(cc) ELSE IF Bounded(cc) THEN Expected(cc) ELSE Cap(cc))]
+               hist |-> Hist(cc, IF cc.cut # 0 THEN Stop(cc) ELSE IF Bounded(cc) THEN Expected(cc) ELSE Cap(cc))]
 CaseOf(cc) == CaseBody(cc, IdOf(cc))
 
 \* ---- seeded random cells (M1, larger sizes): coordinates come from a file, everything else is computed here ----
@@ -69,9 +70,9 @@ RandSet   == {cc \in {RandCell(i) : i \in 1..Len(RandRows)} : CellOK(cc)}
 RandOK    == c.kind \in AllKinds /\ (c.preload => c.kind \in HttpKinds)
 
 \* ---- the case tables of the two tiers: exhaustive small matrix + large files (+ the random cells) ----
-SmallCells == CellsOf(AllKM, L04, P03, W3, C13, CutBoth)
-BigCells   == CellsOf(AllKM, L04, P03, WMore, C13, CutBoth)
-LargeCells == CellsOf(AllKM, LLarge, PLarge, WLarge, C13x, CutBoth)
+SmallCells == CellsOf(AllKM, L04, P03, W3, C13, CutAll)
+BigCells   == CellsOf(AllKM, L04, P03, WMore, C13, CutAll)
+LargeCells == CellsOf(AllKM, LLarge, PLarge, WLarge, C13x, CutAll)
 QuickTable    == SmallCells \cup LargeCells
 ThoroughTable == BigCells \cup LargeCells
 \* generator run: INIT Gen*Init, NEXT GenNext, INVARIANT GenOut - one printed line per cell
